@@ -352,7 +352,12 @@ def _mul_shapes(g, sz, route):
     r = g.rng
     m, l, n = g.dim(sz), g.dim(sz), g.dim(sz)
     c = r.random()
-    if c < 0.15:
+    if route in ("mul", "addmul", "mul_mp", "addmul_mp") and c > 0.6:
+        # Strassen split limits: for cutoff c the recursion is entered when all dimensions are >= 4c/3;
+        # with c = 64 a dimension in [86, 127] is then too small to be split on a word boundary
+        grid = [85, 86, 100, 127, 128, 129, 171, 192, 255, 256, 257]
+        m, l, n = r.choice(grid), r.choice(grid), r.choice(grid)
+    elif c < 0.15:
         n = r.choice([1, 30, 53, 54, 55])      # naive: transposed / row-combination switch
     elif c < 0.3:
         m = r.choice([1, 15, 16, 17])          # m4rm falls back below 16 rows
@@ -386,7 +391,7 @@ def _mul(name, accumulate, param):
 
 
 _K = lambda g: " %d" % g.rng.choice([0, 0, 1, 2, 3, 4, 5, 6, 7, 8, 9, 10, 16])
-_CUT = lambda g: " %d" % g.rng.choice([0, 0, 64, 64, 65, 127, 128, 128, 192, 256, 512, 1024, 2048])
+_CUT = lambda g: " %d" % g.rng.choice([0, 0, 1, 64, 64, 64, 65, 127, 128, 128, 192, 256, 512, 1024, 2048])
 _mul("mul_naive", False, lambda g: "")
 _mul("addmul_naive", True, lambda g: "")
 _mul("mul_m4rm", False, _K)
